@@ -156,7 +156,9 @@ fn receiver_splits(acc: &mut Acc, hdr: &[u8], all_compositions: bool) {
             last = c;
         }
         reads.push(&hdr[last..]);
-        for extra in [&b""[..], &b"\r\nGET"[..], &b"GET / HTTP/1.1\r\n"[..], &b"\r\n"[..]] {
+        // application data arriving with the last read: text, line breaks, and data that is not text at all (a TLS
+        // record, a lone continuation byte, a character cut by the read, the v2 signature)
+        for extra in [&b""[..], &b"\r\nGET"[..], &b"GET / HTTP/1.1\r\n"[..], &b"\r\n"[..], &[0x80u8][..], &[0x16u8, 3, 1, 2, 0, 1, 0xfc][..], &[0xe2u8, 0x82][..], &b"\r\n\r\n\0\r\nQUIT\n"[..]] {
             if let Ok((stopped, ok, parses, hlen)) = guard(|| receive(&reads, extra)) {
                 transitions += parses;
                 acc.eval(parses);
